@@ -31,7 +31,7 @@ PLAN = {
     "thorough": {"shards": 16, "shard_timeout": 3600, "case_timeout": 60, "cases": 1000000, "max_case_timeouts": 10},
 }
 THRESHOLDS = {
-    "quick": {"contract_evaluations": 100000, "impl:native": 5000, "impl:ge": 5000, "impl:stack": 5000, "impl:sge": 5000, "impl:dsge": 1000, "exhaustive_spaces": 100, "decider_random_int": 20000, "wide_ranges": 3000, "zero_weight_offers": 2000, "same_seed_streams": 20, "decider_widths_enumerated": 3000, "weighted_enumerations_with_reused_list": 10},
+    "quick": {"contract_evaluations": 100000, "impl:native": 5000, "impl:ge": 5000, "impl:stack": 5000, "impl:sge": 5000, "impl:dsge": 1000, "exhaustive_spaces": 100, "decider_random_int": 20000, "wide_ranges": 3000, "zero_weight_offers": 2000, "same_seed_streams": 20, "decider_widths_enumerated": 3000, "weighted_enumerations_with_reused_list": 10, "pops_from_lists_with_equal_but_distinct_elements": 500},
     "thorough": {"contract_evaluations": 2000000, "exhaustive_spaces": 2000, "decider_random_int": 400000},
 }
 
@@ -106,15 +106,17 @@ def post_shuffle(self, lst, result, OLD):
 
 def post_pop_random(self, lst, result, OLD):
     _obs("pop_random", len(OLD.before), None)
-    rest = list(OLD.before)
-    ok = False
-    for i, x in enumerate(rest):
-        if x is result or x == result:
-            del rest[i]
-            ok = True
-            break
-    if not ok or sorted(map(repr, rest)) != sorted(map(repr, lst)):
-        _viol(f"pop_random-removes-wrong-element:{REC['impl']}", {"before": core.short(OLD.before), "after": core.short(lst), "result": core.short(result)})
+    # "removes exactly the returned element": by IDENTITY - the returned object is one of the objects given, and what
+    # is left are the other objects (equal-but-distinct elements are different elements)
+    rest = [id(x) for x in OLD.before]
+    ok = id(result) in rest
+    if ok:
+        rest.remove(id(result))
+    if len({repr(x) for x in OLD.before}) < len({id(x) for x in OLD.before}):
+        _r().count("pops_from_lists_with_equal_but_distinct_elements")
+    if not ok or sorted(rest) != sorted(id(x) for x in lst):
+        kind = "equal-but-distinct" if ok or any(x == result for x in OLD.before) else "plain"
+        _viol(f"pop_random-removes-wrong-element:{REC['impl']}:{kind}", {"before": core.short(OLD.before), "after": core.short(lst), "result": core.short(result), "result_still_in_list": any(x is result for x in lst)})
     return True
 
 
@@ -198,6 +200,35 @@ def setup(rec):
         rec.note_inconclusive(f"only {INSTALLED['wrapped']} primitives could be wrapped")
 
 
+class _Leaf:
+    """Value-equal nodes (what dataclass grammar nodes are)."""
+
+    def __init__(self, v):
+        self.v = v
+
+    def __eq__(self, other):
+        return isinstance(other, _Leaf) and other.v == self.v
+
+    def __hash__(self):
+        return hash(self.v)
+
+    def __repr__(self):
+        return f"Leaf({self.v})"
+
+
+def equal_but_distinct(rng):
+    """Lists whose elements are == but not the same object: equal nodes, 1 / 1.0 / True, equal tuples built apart."""
+    k = rng.choice([2, 3, 4, 6])
+    form = rng.randrange(4)
+    if form == 0:
+        return [_Leaf(0) for _ in range(k)]
+    if form == 1:
+        return [_Leaf(i % 2) for i in range(k)]
+    if form == 2:
+        return [1, 1.0, True, 2][:k] if k <= 4 else [1, 1.0, True, 2, 2.0, 3]
+    return [tuple([1, i % 2]) for i in range(k)]
+
+
 # ------------------------------------------------------------------------------- workloads
 
 BOUNDS = [(0, 0), (-3, -3), (-5, 5), (0, 1), (1, 6), (-1000, 1000), (0, 1500), (0, 1001), (-700, 800), (5, 100005), (-(MAXI - 1), MAXI), (0, MAXI), (-MAXI, 0), (MAXI - 3, MAXI), (-10**12, 10**12)]
@@ -271,8 +302,10 @@ def script(src, rng, n=60):
                 src.choice_weighted([f"o{i}" for i in range(len(w))], list(w))
             elif p < 0.82:
                 src.shuffle([rng.randrange(5) for _ in range(rng.choice([0, 1, 2, 5, 9]))])
-            elif p < 0.90:
+            elif p < 0.86:
                 src.pop_random([object() for _ in range(rng.choice([1, 2, 4, 9]))])
+            elif p < 0.90:
+                src.pop_random(equal_but_distinct(rng))
             elif p < 0.96:
                 src.random_bool()
             else:
